@@ -154,6 +154,10 @@ func ttlAlphabet(cfg Cfg) []wire.Op {
 		p(wire.Op{Kind: "append", Key: "a", Val: "s"})
 		p(wire.Op{Kind: "prepend", Key: "a", Val: "t"})
 		p(wire.Op{Kind: "delete", Key: "a"})
+		if cfg.Orca == "l1only" && cfg.L1H != "chunked" {
+			// the remaining lifetime as the server itself reports it (get-with-expiry, L1-only)
+			p(wire.Op{Kind: "gete", Key: "a"})
+		}
 	}
 	out = append(out, wire.Op{Kind: "advance", Sec: 1}, wire.Op{Kind: "advance", Sec: 101})
 	if cfg.Orca != "l1only" {
